@@ -183,6 +183,18 @@ def exC08calc : RunInput :=
 
 instance : NoFailDeliver exC08calc := ⟨fun _ => rfl⟩
 
+/-- a calc task that fails DURING its execution: `1` (selected) has calc_dep `0`; the first action of `0` returns
+    `task_dep: [2]`, `calc_dep: [3]`, a later one fails; `2` and `3` are still created, executed and reported, and `1`
+    is `unmet`; `--continue` -/
+def exC08fail : RunInput :=
+  { taskDep := fun _ => []
+    calcDep := fun n => if n = 1 then [0] else []
+    setup := fun _ => []
+    sel := [1], continue_ := true
+    outcome := fun n => if n = 0 then .failed else .ok
+    calcResFail := fun n => if n = 0 then { tasks := [2], calcs := [3] } else {}
+    runner := .thread, numProc := 2 }
+
 theorem exC08calc_calcOf : ∀ n c, CalcAny exC08calc n c → n = 1 ∧ (c = 0 ∨ c = 4) := by
   intro n c h
   induction h with
